@@ -366,6 +366,7 @@ func initSyncDiagnosticList() {
 	RegisterNativeClass("Std::Sync::DiagnosticList", "value.SyncDiagnosticListClass")
 
 	SyncDiagnosticListIteratorClass = NewClass()
+	SyncDiagnosticListIteratorClass.IncludeMixin(ResettableIteratorBaseMixin)
 	SyncDiagnosticListClass.AddConstantString("Iterator", Ref(SyncDiagnosticListIteratorClass))
 	RegisterNativeClass("Std::Sync::DiagnosticList::Iterator", "value.SyncDiagnosticListIteratorClass")
 }
